@@ -466,7 +466,7 @@ func main() {
 	}
 	var b strings.Builder
 	b.WriteString("(* GENERATED by translate/gen_goroutines_writer from " + "$VERIF_REPO/writer" + " -- do not edit, not committed *)\n")
-	b.WriteString("From Coq Require Import List String ZArith.\nFrom Qryn Require Import model.IngestRobust model.IngestPipe model.IngestFraming model.IngestShared.\nImport ListNotations.\nOpen Scope string_scope.\nOpen Scope Z_scope.\n\n")
+	b.WriteString("From Coq Require Import List String ZArith.\nFrom Qryn Require Import model.IngestRobust model.IngestPipe model.IngestFraming model.IngestShared model.IngestConn.\nImport ListNotations.\nOpen Scope string_scope.\nOpen Scope Z_scope.\n\n")
 	b.WriteString("Definition gen_goroutines : list goroutine := [\n")
 	for i, g := range gs {
 		sep := ";"
@@ -513,6 +513,7 @@ func main() {
 	writeEntries(&b, root, files, parsed)
 	writeFraming(&b, root, files, parsed)
 	writeDecoders(&b, root, files, parsed)
+	writeService(&b, root, files, parsed)
 	// side file for the harness: the literal texts that status-deciding code compares error texts with
 	if js, err := json.Marshal(map[string]interface{}{"phrases": phrases, "server_read_timeout_ms": genServerReadTimeoutMs, "server_read_header_timeout_ms": genServerReadHeaderTimeoutMs}); err == nil {
 		os.WriteFile(strings.TrimSuffix(outPath, ".v")+".json", js, 0644)
